@@ -49,7 +49,7 @@ def worker(sh):
         for rep in range(sh.pick(2, 5)):
             sub = [i for i in free if rng.random() < 0.5]
             ext = sorted(fl + [(i, rng.choice(NZ + [0, rng.getrandbits(256)])) for i in sub])
-            msg = rng.choice(MSGS + [rng.getrandbits(256), rng.getrandbits(255)])
+            msg = rng.choice(MSGS + [rng.getrandbits(256), rng.getrandbits(255), wkd.big_id(rng), wkd.big_id(rng)])
             mode = rng.randrange(2)
             sid = sc.newsig()
             null_ok = mode == 1 and not sub and rng.random() < 0.5
